@@ -273,6 +273,12 @@ def r3_no_wrap(ctx):
                 n += 1
                 r.violation("std-overflow/%s" % st.what, "%s(%s) overflows for the most negative value: panics with overflow checks, yields a negative 'magnitude' without — "
                             "a delta of MIN makes sealing fail or the multiplier jump" % (st.expr[1], ", ".join(show(o, 60) for o in st.operands)), st.where())
+    # wrap-around arithmetic spelled out: wrapping_* / overflowing_* on a multiplier-derived value ("never wraps" is the clause)
+    for bi, e in q.all_call_exprs(mv):
+        nm = e[1].split("::")[-1] if e[0] == "call" else ""
+        if (nm.startswith("wrapping_") or nm.startswith("overflowing_")) and any(q.contains(a, fm_pred) for a in e[2]):
+            n += 1
+            r.violation("wrapping/%s" % nm, "%s on a multiplier-derived value: the multiplier wraps around instead of stopping at the end of its range (%s)" % (nm, show(e, 160)), mv.where(bi))
     if n == 0:
         r.ok("no-wrap", "no lossy cast and no overflow assertion on the multiplier path")
 
